@@ -439,6 +439,12 @@ def run_ctx(concepts, case, spec):
         call(lambda: relabelled == ctx)
         call(lambda: relabelled != ctx)
     call(lambda: ctx == ctx)
+    c3 = call(ctx.copy)
+    if c3 is not RAISED:
+        call(lambda: c3 == ctx)
+        call(lambda: c3 != ctx)
+        if c3 is ctx:
+            COL.violation('driver', 'copy:context-copy-is-the-same-object', 'a new context', 'same object')
     call(lambda: ctx == d)          # non-context: out of scope
     # agreement of shape / fill_ratio / tostring / crc32 between context and definition
     COL.count('judged_agreement')
@@ -451,6 +457,12 @@ def run_ctx(concepts, case, spec):
     for k, (a, b) in obs.items():
         if a != b:
             COL.violation('driver', f'agreement:{k}-differs-between-context-and-definition', repr(a), repr(b))
+    try:
+        sz = (ctx.shape.size, ctx.shape.rows, ctx.shape.columns, d.shape.size, d.shape.rows, d.shape.columns)
+    except Exception as e:
+        sz = repr(e)
+    if sz != (sh.n * sh.m, sh.n, sh.m, sh.n * sh.m, sh.n, sh.m):
+        COL.violation('driver', 'agreement:shape-size-rows-columns-differ', (sh.n * sh.m, sh.n, sh.m), sz)
     if obs['shape'][0] != (sh.n, sh.m):
         COL.violation('driver', 'agreement:shape-differs-from-table', (sh.n, sh.m), obs['shape'][0])
     want_fill = fractions.Fraction(sum(popcount(r) for r in sh.rows), sh.n * sh.m)
